@@ -433,7 +433,7 @@ def replay(pid, path):
 
 
 HOOK_COMMITS = ["ffc8b2b"]
-FIX_COMMITS = ["ca17dcd", "3401bdf", "db0baa0", "3af4e16", "b9b9933", "8154c20", "f1b4fb0", "9b44a2c", "d0885ee", "c8750dd", "2ca6488", "82641ae", "d771171"]
+FIX_COMMITS = ["ca17dcd", "3401bdf", "db0baa0", "3af4e16", "b9b9933", "8154c20", "f1b4fb0", "9b44a2c", "d0885ee", "c8750dd", "2ca6488", "82641ae", "d771171", "a1dc9d0"]
 NOT_YET = {}
 
 PROOF_NOTE = ("Trusted: Lean kernel; Semantics/*.lean as the specification; the correspondence harness and serialisers; "
@@ -721,12 +721,12 @@ PROPS = {
         "rule": "(a) Display of generated programs vs the Lean printer model, text equality; (b) asp_parse: text.parse::<Program>() vs the Lean model of the grammar and tree builder (accepted or not, and the tree) "
                 "on printed programs, fully parenthesised renderings, re-spaced / commented variants, near-miss edits and a corpus of corner cases (corpus/asp_texts.txt); (c) round trip on the real pest parser: a generated tree "
                 "(identifier pool incl. not, nota, notify, forall, _a) is rendered fully parenthesised, parsed (tree t1 in the parser's image), printed, re-parsed (must equal t1) and printed again (must be the same text)",
-        "level_text": "Full for the model, except for the name `not`: accepted_text_roundtrip (for every accepted text whose tree has no name `not`: the printed tree is accepted, parses to the identical tree and prints to itself); roundtrip (parseProgram (printProgram p) = some p) and print_parse_print for every program whose names have the grammar's lexical shape and are not `not` "
+        "level_text": "Full for the model, no hypothesis on the text: accepted_text_roundtrip (for every accepted text: the printed tree is accepted, parses to the identical tree and prints to itself) = roundtrip + accepted_text_wf (every tree the parser builds has names of the grammar's lexical shape, none of them `not`: since fix a1dc9d0 `not` is no name, not_is_no_name); roundtrip (parseProgram (printProgram p) = some p) and print_parse_print for every program whose names have the grammar's lexical shape and are not `not` "
                       "(Program.WF) - every operator nesting and associativity, unary minus on numerals vs negative numerals, intervals on either side, all head kinds, empty bodies, constraints. Proved at the character "
                       "level (white space skipping, the look-aheads !integer / !negation / !\".\", ordered choice comparison-before-literal) and at the pair level (pratt_flat_eq: pest's Pratt algorithm inverts the printer's "
-                      "parenthesisation). Printer and parser models are tied to the Rust code by exact correspondence. The excluded case is a genuine defect (known finding: identifier `not`).",
-        "level_note": PROOF_NOTE + " pest itself (PEG matching, implicit skipping, Pratt parser) is modelled from its documentation and source (pest 2.8.2) and tied by the asp_parse correspondence; parseProgram_shaped proves that the tree of "
-                      "every accepted text has names of the grammar's lexical shape, so accepted_text_roundtrip needs only the hypothesis that no name is `not`.",
+                      "parenthesisation). Printer and parser models are tied to the Rust code by exact correspondence. The formerly excluded case (identifier `not`) was a genuine defect, repaired by fix a1dc9d0.",
+        "level_note": PROOF_NOTE + " pest itself (PEG matching, implicit skipping, Pratt parser) is modelled from its documentation and source (pest 2.8.2) and tied by the asp_parse correspondence; accepted_text_wf proves that the tree of "
+                      "every accepted text is well-formed, so accepted_text_roundtrip needs no hypothesis.",
         "technique": "Lean 4 proof (character-level parser inversion by induction on terms/atoms/bodies/rules/programs + Pratt inversion) + differential correspondence (printer text, parser trees) + round-trip exploration on the real parser",
         "design_ref": "DESIGN.md 6/C14",
         "trusted_base": COMMON_TRUST + ["the Lean model of pest's PEG semantics (ordered choice, greedy repetition, implicit WHITESPACE/COMMENT skipping) and of its Pratt parser, tied by correspondence"],
